@@ -171,6 +171,9 @@ class CallNode(Node):
             disabled_tags=self.disabled_tags,
             carry_loop_iterations=True,
         )
+        # The macros defined so far can be called from inside a macro. Macros
+        # defined by the macro's block are local to it, like its variables.
+        macro_context.tag_namespace["macros"] = dict(context.tag_namespace["macros"])
 
         return macro.block.render(macro_context, buffer)
 
@@ -209,6 +212,9 @@ class CallNode(Node):
             disabled_tags=self.disabled_tags,
             carry_loop_iterations=True,
         )
+        # The macros defined so far can be called from inside a macro. Macros
+        # defined by the macro's block are local to it, like its variables.
+        macro_context.tag_namespace["macros"] = dict(context.tag_namespace["macros"])
 
         return await macro.block.render_async(macro_context, buffer)
 
